@@ -198,6 +198,19 @@ func NewMemStore(name string) *MemStore {
 		MaxInFl: map[string]int{}, inFl: map[string]int{}}
 }
 
+// SetFault replaces the fault plan; safe while calls are in flight.
+func (m *MemStore) SetFault(f func(op string, n int64, id desync.ChunkID) error) {
+	m.mu.Lock()
+	m.Fault = f
+	m.mu.Unlock()
+}
+
+func (m *MemStore) getFault() func(op string, n int64, id desync.ChunkID) error {
+	m.mu.Lock()
+	defer m.mu.Unlock()
+	return m.Fault
+}
+
 func (m *MemStore) Put(b []byte) desync.ChunkID {
 	id := Sum(b)
 	m.mu.Lock()
@@ -291,8 +304,8 @@ func (e ErrInjected) Error() string { return "injected: " + e.Msg }
 
 func (m *MemStore) GetChunk(id desync.ChunkID) (*desync.Chunk, error) {
 	n, t0, _ := m.begin("get", id)
-	if m.Fault != nil {
-		if err := m.Fault("get", n, id); err != nil {
+	if f := m.getFault(); f != nil {
+		if err := f("get", n, id); err != nil {
 			m.end2("get", id, n, t0, "error", 0, err, nil)
 			return nil, err
 		}
@@ -318,8 +331,8 @@ func (m *MemStore) GetChunk(id desync.ChunkID) (*desync.Chunk, error) {
 
 func (m *MemStore) HasChunk(id desync.ChunkID) (bool, error) {
 	n, t0, _ := m.begin("has", id)
-	if m.Fault != nil {
-		if err := m.Fault("has", n, id); err != nil {
+	if f := m.getFault(); f != nil {
+		if err := f("has", n, id); err != nil {
 			m.end2("has", id, n, t0, "error", 0, err, nil)
 			return false, err
 		}
@@ -334,8 +347,8 @@ func (m *MemStore) HasChunk(id desync.ChunkID) (bool, error) {
 func (m *MemStore) StoreChunk(c *desync.Chunk) error {
 	id := c.ID()
 	n, t0, _ := m.begin("store", id)
-	if m.Fault != nil {
-		if err := m.Fault("store", n, id); err != nil {
+	if f := m.getFault(); f != nil {
+		if err := f("store", n, id); err != nil {
 			m.end2("store", id, n, t0, "error", 0, err, c)
 			return err
 		}
